@@ -275,6 +275,7 @@ func MemoKeyMismatches(f *Func) []MemoKeyMismatch {
 	info := f.Pkg.TypesInfo
 	type use struct{ lookups, stores []ast.Expr }
 	uses := map[types.Object]*use{}
+	nearOnly := map[types.Object]bool{}
 	isSet := func(e ast.Expr) (types.Object, bool) {
 		o := ObjOf(info, e)
 		if o == nil {
@@ -304,6 +305,14 @@ func MemoKeyMismatches(f *Func) []MemoKeyMismatch {
 			return o, v.NumFields() == 0
 		case *types.Basic:
 			return o, v.Kind() == types.Bool
+		}
+		// memo tables (name/ID/hash -> computed value): only near-miss keys are reported for them
+		if k, ok := m.Key().Underlying().(*types.Basic); ok && k.Kind() == types.String {
+			switch m.Elem().Underlying().(type) {
+			case *types.Pointer, *types.Interface:
+				nearOnly[o] = true
+				return o, true
+			}
 		}
 		return nil, false
 	}
@@ -343,15 +352,27 @@ func MemoKeyMismatches(f *Func) []MemoKeyMismatch {
 			continue
 		}
 		for _, s := range u.stores {
-			match := false
+			match, near := false, ast.Expr(nil)
 			for _, l := range u.lookups {
-				if SameExpr(info, s, l) || sameShape(info, s, l) {
+				d := identDiffs(s, l)
+				if SameExpr(info, s, l) || d == 0 || (!nearOnly[o] && sameShape(info, s, l)) {
 					match = true
 				}
+				if d == 1 {
+					near = l
+				}
 			}
-			if !match {
-				out = append(out, MemoKeyMismatch{Map: o, Lookup: u.lookups[0], Store: s})
+			if match {
+				continue
 			}
+			if nearOnly[o] {
+				// a table, not a visited set: only a key that differs from a lookup key in exactly one identifier
+				if near != nil {
+					out = append(out, MemoKeyMismatch{Map: o, Lookup: near, Store: s})
+				}
+				continue
+			}
+			out = append(out, MemoKeyMismatch{Map: o, Lookup: u.lookups[0], Store: s})
 		}
 	}
 	return out
@@ -640,6 +661,9 @@ func totalSwitchAssign(info *types.Info, st ast.Stmt, o types.Object) bool {
 
 // sameShape: two key expressions that differ only in the identifier at their
 // root, when both roots have the same type (x.Name vs y.Name).
+// strictMemoCalls (experiment switch) makes x.ID() and y.ID() different keys.
+var strictMemoCalls = false
+
 func sameShape(info *types.Info, a, b ast.Expr) bool {
 	a, b = Unparen(a), Unparen(b)
 	switch x := a.(type) {
@@ -669,6 +693,9 @@ func sameShape(info *types.Info, a, b ast.Expr) bool {
 		if !ok || len(x.Args) != len(y.Args) || len(x.Args) != 0 {
 			return false
 		}
+		if strictMemoCalls {
+			return false
+		}
 		return sameShape(info, x.Fun, y.Fun)
 	}
 	return false
@@ -677,4 +704,90 @@ func sameShape(info *types.Info, a, b ast.Expr) bool {
 func isLocalVar(o types.Object) bool {
 	v, ok := o.(*types.Var)
 	return ok && !v.IsField() && v.Pkg() != nil && v.Parent() != v.Pkg().Scope()
+}
+
+// identDiffs walks two expressions in parallel: -1 when their shapes differ,
+// otherwise the number of identifier leaves whose names differ.
+func identDiffs(a, b ast.Expr) int {
+	a, b = Unparen(a), Unparen(b)
+	switch x := a.(type) {
+	case *ast.Ident:
+		y, ok := b.(*ast.Ident)
+		if !ok {
+			return -1
+		}
+		if x.Name == y.Name {
+			return 0
+		}
+		return 1
+	case *ast.SelectorExpr:
+		y, ok := b.(*ast.SelectorExpr)
+		if !ok {
+			return -1
+		}
+		d := identDiffs(x.X, y.X)
+		if d < 0 {
+			return -1
+		}
+		if x.Sel.Name != y.Sel.Name {
+			d++
+		}
+		return d
+	case *ast.CallExpr:
+		y, ok := b.(*ast.CallExpr)
+		if !ok || len(x.Args) != len(y.Args) {
+			return -1
+		}
+		d := identDiffs(x.Fun, y.Fun)
+		if d < 0 {
+			return -1
+		}
+		for i := range x.Args {
+			di := identDiffs(x.Args[i], y.Args[i])
+			if di < 0 {
+				return -1
+			}
+			d += di
+		}
+		return d
+	case *ast.BinaryExpr:
+		y, ok := b.(*ast.BinaryExpr)
+		if !ok || x.Op != y.Op {
+			return -1
+		}
+		d1, d2 := identDiffs(x.X, y.X), identDiffs(x.Y, y.Y)
+		if d1 < 0 || d2 < 0 {
+			return -1
+		}
+		return d1 + d2
+	case *ast.BasicLit:
+		y, ok := b.(*ast.BasicLit)
+		if !ok || x.Value != y.Value {
+			return -1
+		}
+		return 0
+	case *ast.UnaryExpr:
+		y, ok := b.(*ast.UnaryExpr)
+		if !ok || x.Op != y.Op {
+			return -1
+		}
+		return identDiffs(x.X, y.X)
+	case *ast.StarExpr:
+		y, ok := b.(*ast.StarExpr)
+		if !ok {
+			return -1
+		}
+		return identDiffs(x.X, y.X)
+	case *ast.IndexExpr:
+		y, ok := b.(*ast.IndexExpr)
+		if !ok {
+			return -1
+		}
+		d1, d2 := identDiffs(x.X, y.X), identDiffs(x.Index, y.Index)
+		if d1 < 0 || d2 < 0 {
+			return -1
+		}
+		return d1 + d2
+	}
+	return -1
 }
